@@ -612,7 +612,7 @@ func execC07(rc *harness.RunCtx, p *harness.Plan, cfg *Config, w *world, ops []O
 		if i < len(ops) && !ops[i].barrier() {
 			continue
 		}
-		cz.beginSegment(s.corpusOn)
+		cz.beginSegment(s.corpusOn, s.rows())
 		cz.sequential = oneClient(ops[start:i]) && !cz.pendingAtStart
 		for _, op := range ops[start:i] {
 			cz.noteDelivery(op, s.corpusOn)
